@@ -2,7 +2,9 @@
 Model of canopen/network.py (C10): `Network.subscribe / unsubscribe / notify`,
 `Network.__setitem__ / __delitem__` with `RemoteNode/LocalNode.associate_network /
 remove_network`, `RemoteNode.add_sdo`, `Network.send_message` / `PeriodicMessageTask.__init__`
-(frame construction), `MessageListener.on_message_received`, `NodeScanner`.
+(frame construction), `MessageListener.on_message_received`, `NodeScanner`, and the
+`MutableMapping` mix-in methods `Network` inherits (`pop`, `popitem`, `clear`, `update`,
+`setdefault`; `len` / `in` / iteration through `Net.keys`).
 
 Conventions
 * `Network.subscribers` (a dict CAN id → list) is a function `Nat → Option (List Cb)`: `none` is
@@ -129,13 +131,24 @@ structure Frame where
   ts : Nat
 deriving Repr, DecidableEq
 
-/-- a `can.Message` as received from the bus -/
+/-- a `can.Message` as received from the bus: what the dispatch may use (`arbitration_id`, `data`,
+    `timestamp`, `is_error_frame`, `is_remote_frame`) and everything else the object carries and a
+    listener could look at (`is_rx` — false for the interface's echo of an own transmission —,
+    `is_extended_id`, `is_fd`, `bitrate_switch`, `error_state_indicator`, `dlc`, which need not be
+    the data length, `channel`: 0 = None, else a code for an int / a string) -/
 structure BusMsg where
   id : Nat
   data : Bytes
   ts : Nat
   isError : Bool
   isRemote : Bool
+  isRx : Bool := true
+  isExtended : Bool := false
+  isFd : Bool := false
+  brs : Bool := false
+  esi : Bool := false
+  dlc : Nat := 0
+  channel : Nat := 0
 deriving Repr, DecidableEq
 
 /-- a `can.Message` as built for sending -/
@@ -188,13 +201,15 @@ structure Net where
   nodes : Nat → Option Nat          -- `Network.nodes`: node id → node object
   extra : List (Nat × Nat)          -- `add_sdo` calls so far: (node object, tx COB-ID)
   scan : List Nat                   -- `NodeScanner.nodes`
+  keys : List Nat                   -- iteration order of the dict `Network.nodes` (insertion order)
 
 /-- the state `Network.__init__` builds: the LSS master's handler already subscribed -/
 def init : Net :=
   { subs := ⟨fun j => if j ∈ initLssIds then some [Cb.lss] else none⟩
     nodes := fun _ => none
     extra := []
-    scan := [] }
+    scan := []
+    keys := [] }
 
 structure Out where
   ok : Bool
@@ -214,7 +229,7 @@ def notify (E : Env) (n : Net) (f : Frame) : Net × Out :=
   else ({ n with scan := scanStep n.scan f.id }, ⟨true, calls⟩)
 
 /-- `MessageListener.on_message_received`: error and remote frames are dropped, exceptions of
-    callbacks are logged and swallowed -/
+    callbacks are logged and swallowed; no other attribute of the message is looked at -/
 def receive (E : Env) (n : Net) (m : BusMsg) : Net × Out :=
   if m.isError || m.isRemote then (n, ⟨true, []⟩)
   else
@@ -228,6 +243,22 @@ def setNodes (nodes : Nat → Option Nat) (nid : Nat) (v : Option Nat) : Nat →
 def detach (E : Env) (n : Net) (old : Nat) : Subs × Bool :=
   unsubscribeMany n.subs (removeCalls E n.extra old)
 
+/-- when `unsubscribeMany` raises: is the exception a `KeyError` (the CAN id is not a key of
+    `subscribers`) rather than the `ValueError` of `list.remove`?  (`false` when nothing raises) -/
+def unsubscribeManyKeyErr (s : Subs) : List (Nat × Cb) → Bool
+  | [] => false
+  | p :: r =>
+    match unsubscribe s p.1 (some p.2) with
+    | none => (s.get p.1).isNone
+    | some s' => unsubscribeManyKeyErr s' r
+
+def detachKeyErr (E : Env) (n : Net) (old : Nat) : Bool :=
+  unsubscribeManyKeyErr n.subs (removeCalls E n.extra old)
+
+/-- a dict keeps the position of a key that is assigned again; a new key goes last -/
+def insertKey (keys : List Nat) (nid : Nat) : List Nat :=
+  if nid ∈ keys then keys else keys ++ [nid]
+
 /-- `Network.__setitem__(node.id, node)` (`add_node`, `create_node`) -/
 def setNode (E : Env) (n : Net) (o : Nat) : Net × Bool :=
   match n.nodes (E.nid o) with
@@ -235,11 +266,13 @@ def setNode (E : Env) (n : Net) (o : Nat) : Net × Bool :=
     let r := detach E n old
     if r.2 then
       ({ n with subs := subscribeMany r.1 (assocCalls E n.extra o)
-                nodes := setNodes n.nodes (E.nid o) (some o) }, true)
+                nodes := setNodes n.nodes (E.nid o) (some o)
+                keys := insertKey n.keys (E.nid o) }, true)
     else ({ n with subs := r.1 }, false)
   | none =>
     ({ n with subs := subscribeMany n.subs (assocCalls E n.extra o)
-              nodes := setNodes n.nodes (E.nid o) (some o) }, true)
+              nodes := setNodes n.nodes (E.nid o) (some o)
+              keys := insertKey n.keys (E.nid o) }, true)
 
 /-- `Network.__delitem__(node_id)` -/
 def delNode (E : Env) (n : Net) (nid : Nat) : Net × Bool :=
@@ -247,8 +280,70 @@ def delNode (E : Env) (n : Net) (nid : Nat) : Net × Bool :=
   | none => (n, false)                                            -- KeyError
   | some old =>
     let r := detach E n old
-    if r.2 then ({ n with subs := r.1, nodes := setNodes n.nodes nid none }, true)
+    if r.2 then ({ n with subs := r.1, nodes := setNodes n.nodes nid none
+                          keys := n.keys.erase nid }, true)
     else ({ n with subs := r.1 }, false)
+
+/-- a failing `del network[nid]` raises a `KeyError` (absent node id, or `unsubscribe` of a CAN id
+    that is no key of `subscribers`) — the one exception `MutableMapping.clear` swallows -/
+def delKeyErr (E : Env) (n : Net) (nid : Nat) : Bool :=
+  match n.nodes nid with
+  | none => true
+  | some old => detachKeyErr E n old
+
+/-! ### the `MutableMapping` mix-in methods `Network` inherits (they only go through
+    `__getitem__` / `__setitem__` / `__delitem__` / `__iter__`) -/
+
+/-- `network.pop(nid)` / `network.pop(nid, default)`: `value = self[key]` (KeyError → the default,
+    if one was given), else `del self[key]` (whose exceptions propagate) -/
+def popNode (E : Env) (n : Net) (nid : Nat) (dflt : Bool) : Net × Bool :=
+  match n.nodes nid with
+  | none => (n, dflt)
+  | some _ => delNode E n nid
+
+/-- `network.popitem()`: `key = next(iter(self))` (empty: KeyError), `del self[key]` -/
+def popItem (E : Env) (n : Net) : Net × Bool :=
+  match n.keys with
+  | [] => (n, false)
+  | k :: _ => delNode E n k
+
+def popItemKeyErr (E : Env) (n : Net) : Bool :=
+  match n.keys with
+  | [] => true
+  | k :: _ => delKeyErr E n k
+
+/-- `network.clear()`: `popitem()` until it raises `KeyError`, which is swallowed — the `KeyError`
+    of the empty mapping, but also one coming out of `remove_network`; any other exception
+    propagates.  `fuel` bounds the loop (`clear_fuel` in the proofs: `keys.length + 1` is enough). -/
+def clearLoop (E : Env) : Nat → Net → Net × Bool
+  | 0, n => (n, true)
+  | fuel + 1, n =>
+    let r := popItem E n
+    if r.2 then clearLoop E fuel r.1
+    else (r.1, popItemKeyErr E n)
+
+def clearNodes (E : Env) (n : Net) : Net × Bool := clearLoop E (n.keys.length + 1) n
+
+/-- `network.update(other)`: `self[node.id] = node` for the items in turn; the first one that
+    raises ends it -/
+def updateNodes (E : Env) : Net → List Nat → Net × Bool
+  | n, [] => (n, true)
+  | n, o :: r =>
+    let a := setNode E n o
+    if a.2 then updateNodes E a.1 r else (a.1, false)
+
+/-- number of items of `update` stored before it returned or raised -/
+def updateDone (E : Env) : Net → List Nat → Nat
+  | _, [] => 0
+  | n, o :: r =>
+    let a := setNode E n o
+    if a.2 then updateDone E a.1 r + 1 else 0
+
+/-- `network.setdefault(node.id, node)`: an occupied node id keeps its node -/
+def setDefault (E : Env) (n : Net) (o : Nat) : Net × Bool :=
+  match n.nodes (E.nid o) with
+  | some _ => (n, true)
+  | none => setNode E n o
 
 /-- `RemoteNode.add_sdo(rx, tx)`; a LocalNode has no such method (AttributeError) -/
 def addSdo (E : Env) (n : Net) (o : Nat) (tx : Nat) : Net × Bool :=
@@ -268,7 +363,31 @@ inductive Op where
   | notify (f : Frame)
   | receive (m : BusMsg)
   | scanReset
+  | popNode (nid : Nat) (dflt : Bool)
+  | popItem
+  | clear
+  | update (os : List Nat)
+  | setDefault (o : Nat)
 deriving Repr, DecidableEq
+
+/-- what a mapping method hands back -/
+inductive Ret where
+  | nothing
+  | obj (o : Nat)              -- a node object
+  | item (nid o : Nat)         -- `popitem`: (key, node object)
+  | dflt                       -- the default given to `pop`
+  | stored (k : Nat)           -- `update`: items stored before it raised
+deriving Repr, DecidableEq
+
+/-- the value returned by a successful call (for `update`: how far a failing call got) -/
+def ret (E : Env) (n : Net) : Op → Ret
+  | .popNode nid _ => match n.nodes nid with | some o => .obj o | none => .dflt
+  | .popItem => match n.keys with
+    | [] => .nothing
+    | k :: _ => match n.nodes k with | some o => .item k o | none => .nothing
+  | .update os => .stored (updateDone E n os)
+  | .setDefault o => .obj ((n.nodes (E.nid o)).getD o)
+  | _ => .nothing
 
 def step (E : Env) (n : Net) : Op → Net × Out
   | .subscribe id cb => ({ n with subs := subscribe n.subs id cb }, ⟨true, []⟩)
@@ -282,6 +401,11 @@ def step (E : Env) (n : Net) : Op → Net × Out
   | .notify f => notify E n f
   | .receive m => receive E n m
   | .scanReset => ({ n with scan := [] }, ⟨true, []⟩)
+  | .popNode nid d => let r := popNode E n nid d; (r.1, ⟨r.2, []⟩)
+  | .popItem => let r := popItem E n; (r.1, ⟨r.2, []⟩)
+  | .clear => let r := clearNodes E n; (r.1, ⟨r.2, []⟩)
+  | .update os => let r := updateNodes E n os; (r.1, ⟨r.2, []⟩)
+  | .setDefault o => let r := setDefault E n o; (r.1, ⟨r.2, []⟩)
 
 /-- a whole history: final state and one output per operation -/
 def run (E : Env) (n : Net) : List Op → Net × List Out
